@@ -55,7 +55,8 @@ def copier_table(ctx, model, ci, fn, m, fields, params):
 
     def sample(f):
         if f == 'parts':
-            return ['a', Obj('Star', parentheses=False, alias=None)]
+            # what the grammar actions put there: names (any text, also `*` written as a quoted name) and a Star node
+            return ['a', '*', 'b.c', Obj('Star', parentheses=False, alias=None)]
         if f in ('parentheses',):
             return True
         return Obj('Value', tag=f, inner=[Obj('Leaf', tag=f)])
@@ -80,12 +81,23 @@ def copier_table(ctx, model, ci, fn, m, fields, params):
                 return it.call_function(ci.methods['__copy__'], [x], {}, Env())
             return Obj(x.kind, **dict(x.attrs))
         return x
-    stubs = {ci.name: ctor, 'copy': shallow, 'copy.copy': shallow, 'deepcopy': lambda it, x, *a: _clone(x, {}), 'copy.deepcopy': lambda it, x, *a: _clone(x, {})}
-    methods = {ci.name: {k: v for c in model.mro(ci) for k, v in reversed(list(c.methods.items()))}}
-    it = Interp({ci.name: {c.name for c in model.mro(ci)}}, stubs, methods=methods)
+    stubs = {'copy': shallow, 'copy.copy': shallow, 'deepcopy': lambda it, x, *a: _clone(x, {}), 'copy.deepcopy': lambda it, x, *a: _clone(x, {}),
+             'Star': lambda it, *a, **k: Obj('Star', parentheses=False, alias=None)}
+    # the copier re-creates the node through the class's real constructor (interpreted, with the constructors of its bases): what the constructor does to its
+    # arguments is part of what the copy looks like
+    files = tuple(dict.fromkeys(c.file for c in model.mro(ci) if c.file))
+    isa = {ci.name: {c.name for c in model.mro(ci)}, 'Star': {'ASTNode'}}
     args = [me] + ([{}] if m == '__deepcopy__' else [])
     try:
-        res = it.call_function(fn, args, {}, Env())
+        try:
+            it = Interp.for_file(ctx.src, ci.file, isa, stubs, also=tuple(f for f in files if f != ci.file))
+            res = it.call_function(fn, args, {}, Env())
+        except AnalysisError as e:
+            ctx.note(f'{ci.name}.{m}: the real constructor is not interpretable ({str(e)[:80]}); a stand-in constructor (keyword arguments become attributes) is used')
+            stubs[ci.name] = ctor
+            methods = {ci.name: {k: v for c in model.mro(ci) for k, v in reversed(list(c.methods.items()))}}
+            it = Interp(isa, stubs, methods=methods)
+            res = it.call_function(fn, args, {}, Env())
     except Raised as r:
         ctx.ob('C18.custom-copy-complete', f'{ci.name}.{m}', False, f'{ci.name}.{m} raises {r.exc_name} on an instance that carries {sorted(fields)}',
                file=ci.file, line=fn.lineno)
